@@ -319,6 +319,7 @@ func gsub(t *rt.Thread, c *rt.GoCont) (rt.Cont, error) {
 		sb         strings.Builder // Build the result string into this
 		matchCount int64
 		allowEmpty = true
+		modified   bool // true once a substitution has been made
 	)
 	// We require memory for the string we build as we go along.  In order to
 	// save allocations in case there are no substitutions, we do not start
@@ -339,6 +340,7 @@ func gsub(t *rt.Thread, c *rt.GoCont) (rt.Cont, error) {
 				return nil, err
 			}
 			if !same {
+				modified = true
 				t.RequireBytes(start - sj)
 				// No need to require memory for sub as that has been done already
 				// by replF
@@ -356,7 +358,7 @@ func gsub(t *rt.Thread, c *rt.GoCont) (rt.Cont, error) {
 	}
 	var res rt.Value
 	switch {
-	case sb.Len() == 0:
+	case !modified:
 		// We return the input string to save an allocation.
 		res = c.Arg(0)
 	case sj < len(s):
